@@ -10,12 +10,15 @@ Definition c04_header_stage (bs : list N) : option err := header_stage_with arc 
 (* the same with the table-driven checksum of the model (equal on bytes: verdict_arc), cheaper to evaluate *)
 Definition c04_verdict_m (bs : list N) : option err := crc_verdict_with checksum bs TEOF.
 Definition c04_hci (bs : list N) : option bool := header_check_integrity (parse_header bs).
+(* Header.CheckIntegrity on a hand-made Header value *)
+Definition c04_hci_value (sz proto prof ds : N) (dt : list N) (crc : N) : option bool :=
+  header_check_integrity (mk_header sz proto prof ds dt crc).
 Definition c04_corrupt (bs : list N) (off p : N) : list N := xorl bs (burst (frame_len bs) off p).
 Definition c04_in_domain (bs : list N) (off p : N) : bool :=
   burst16b (frame_len bs) off p && outside_size_fields (burst (frame_len bs) off p).
 
 Extraction Language OCaml.
 Extraction "fitmodel_c04.ml"
-  c04_verdict c04_header_stage c04_verdict_m c04_hci c04_corrupt c04_in_domain
+  c04_verdict c04_header_stage c04_verdict_m c04_hci c04_hci_value c04_corrupt c04_in_domain
   Integrity.frame_len Integrity.parse_header Burst.burst Burst.xorl Burst.burst_msb
   CrcSpec.arc Crc.checksum Decode.is_integrity.
